@@ -1,5 +1,5 @@
 // Stand-ins for what DFA::do_check_ambiguity_best_effort is written with (unit dck):
-//  * DFA::iter_transitions_from (clones the row and iterates it) as the vector of the row's entries;
+//  * `row.clone().into_iter()` (DFA::iter_transitions_from, itself proved in unit dck) as the vector of the row's entries;
 //  * `V.sort_by_key(|(literal, _)| *literal)` (stable sort by the literal: equal literals end up next to
 //    each other; same elements), `V.dedup_by_key(|(literal, description)| (*literal, *description))`
 //    (consecutive repetitions of a (literal, description) pair removed; order kept), `V.windows(2)`
@@ -11,14 +11,13 @@
 //    the interned string).
 verus! {
 
-impl DFA {
-    #[verifier::external_body]
-    fn iter_transitions_from(&self, from: StateId) -> (r: Vec<(InpId, StateId)>)
-        ensures
-            forall|k: int| 0 <= k < r@.len() ==> used(*self, from, (#[trigger] r@[k]).0) && self.transitions@[from][r@[k].0] == r@[k].1,
-            forall|id: InpId| #[trigger] used(*self, from, id) ==> exists|k: int| 0 <= k < r@.len() && (#[trigger] r@[k]).0 == id,
-    { unimplemented!() }
-}
+/// `row.clone().into_iter()` on a row of the table: its entries, each key once
+#[verifier::external_body]
+pub fn __imap_owned_entries(m: &IndexMap<InpId, u32>) -> (r: Vec<(InpId, u32)>)
+    ensures
+        forall|i: int| 0 <= i < r@.len() ==> m@.contains_key((#[trigger] r@[i]).0) && m@[r@[i].0] == r@[i].1,
+        forall|k: InpId| m@.contains_key(k) ==> exists|i: int| 0 <= i < r@.len() && (#[trigger] r@[i]).0 == k,
+{ unimplemented!() }
 
 #[verifier::external_body]
 pub fn __boxed_copy(v: &Vec<Inp>) -> (r: Box<[Inp]>)
